@@ -4,7 +4,7 @@
    crate (process exit before the k-th I/O event, incl. between the index temp-file write, its
    fsync and the rename) judged by these acceptors. *)
 From W Require Import model.Base model.Engine model.EngineCfg spec.Queue spec.Crash proofs.CrashP proofs.EngineWF proofs.EngineInv proofs.EngineMain
-  proofs.EngineDisk proofs.EnginePos proofs.EngineNorm proofs.EngineReopen proofs.EngineC06 proofs.EngineALO2.
+  proofs.EngineDisk proofs.EnginePos proofs.EngineNorm proofs.EngineReopen proofs.EngineC06 proofs.EngineALO2 proofs.EngineSince proofs.EngineSince2.
 
 Theorem c09_strict_acceptor_means : forall app deliv rec,
   c09_strict_one app deliv rec 0 = true -> outs_are (deliv ++ rec) app = true.
@@ -94,6 +94,38 @@ Example c09_witness_alo_outside_known :
       ORead tt true; ORead tt true; ORead tt true; ORead tt true]) = false.
 Proof. vm_compute. reflexivity. Qed.
 
+(* AtLeastOnce{persist_every = n} (n <= u32::MAX, the type of the field), restart-free history whose
+   CONSUMING reads are read_next calls (peeking / offset-addressed batch reads allowed; consuming batch
+   reads never persist in AtLeastOnce mode and reset the counter, so no bound holds with them), crash
+   between two operations, no block-id drift: the consumer resumes at position k with k <= l_del
+   (nothing skipped) and l_del - k <= n, indeed < max n 1 (at most persist_every entries are delivered
+   again).  Invariant: the persisted position lags by exactly r_since entries and r_since < max n 1
+   (LNs, proofs/EngineSince.v), on the sealed path and at the tail (the forced provisional persist
+   resets the counter and, since fix 5104140, only happens when the block holds entries). *)
+Theorem c09_alo_redelivery_bound : forall (c : Cfg) (n : N) (be : backend) (ops : list op),
+  cfg_ok c -> n <= u32_max ->
+  Forall (op_ok c) ops -> forallb rn_only ops = true ->
+  N.of_nat (length (offered_all ops)) <= u64_max -> sum_len (offered_all ops) <= u64_max ->
+  id_drift c (exec (env_of c (ALO n) be) init ops) = false ->
+  let s := exec (env_of c (ALO n) be) init ops in
+  let g := ledger_run [] (trace (env_of c (ALO n) be) init ops) in
+  forall t x,
+    stream (get_ts (reopen c s) t) = l_app (lget g t) /\
+    exists k, (k <= l_del (lget g t))%nat /\ N.of_nat (l_del (lget g t) - k) <= n /\
+              N.of_nat (l_del (lget g t) - k) < N.max n 1 /\
+              unread c (nrm x (get_ts (reopen c s) t)) = skipn k (l_app (lget g t)).
+Proof. exact crash_between_operations_alo_bound. Qed.
+
+(* non-vacuity: the AtLeastOnce{3} witness history above is read_next-only, without drift; after its
+   4 consuming reads the restart re-delivers exactly one entry (the position was persisted at the 3rd) *)
+Example c09_witness_alo_bound :
+  let ops := [OAppend tt (en 0 10); OAppend tt (en 1 10); OAppend tt (en 2 10); OAppend tt (en 3 10); OAppend tt (en 4 10);
+              ORead tt true; ORead tt true; ORead tt true; ORead tt true] in
+  forallb rn_only ops = true /\ id_drift small_cfg (exec (env_of small_cfg (ALO 3) Fd) init ops) = false /\
+  l_del (lget (ledger_run [] (trace (env_of small_cfg (ALO 3) Fd) init ops)) 1) = 4%nat /\
+  unread small_cfg (nrm false (get_ts (reopen small_cfg (exec (env_of small_cfg (ALO 3) Fd) init ops)) 1)) = [en 3 10; en 4 10].
+Proof. vm_compute. repeat split; reflexivity. Qed.
+
 Check c09_strict_acceptor_means : forall app deliv rec,
   c09_strict_one app deliv rec 0 = true -> outs_are (deliv ++ rec) app = true.
 Print Assumptions c09_strict_acceptor_means.
@@ -121,3 +153,16 @@ Check c09_alo_never_skips_between_operations : forall (c : Cfg) (m : mode) (be :
     exists k, (k <= l_del (lget g t))%nat /\
               unread c (nrm x (get_ts (reopen c s) t)) = skipn k (l_app (lget g t)).
 Print Assumptions c09_alo_never_skips_between_operations.
+Check c09_alo_redelivery_bound : forall (c : Cfg) (n : N) (be : backend) (ops : list op),
+  cfg_ok c -> n <= u32_max ->
+  Forall (op_ok c) ops -> forallb rn_only ops = true ->
+  N.of_nat (length (offered_all ops)) <= u64_max -> sum_len (offered_all ops) <= u64_max ->
+  id_drift c (exec (env_of c (ALO n) be) init ops) = false ->
+  let s := exec (env_of c (ALO n) be) init ops in
+  let g := ledger_run [] (trace (env_of c (ALO n) be) init ops) in
+  forall t x,
+    stream (get_ts (reopen c s) t) = l_app (lget g t) /\
+    exists k, (k <= l_del (lget g t))%nat /\ N.of_nat (l_del (lget g t) - k) <= n /\
+              N.of_nat (l_del (lget g t) - k) < N.max n 1 /\
+              unread c (nrm x (get_ts (reopen c s) t)) = skipn k (l_app (lget g t)).
+Print Assumptions c09_alo_redelivery_bound.
